@@ -215,6 +215,69 @@ def catalogue():
     cat["OrthogonalRegression[projector]"] = xy_est(lambda s: OrthogonalRegression(use_orthogonal_projector=True), ["predict"])
     cat["OrthogonalRegression[padded]"] = xy_est(lambda s: OrthogonalRegression(use_orthogonal_projector=False), ["predict"])
 
+    def kpre_entry(center):
+        from sklearn.kernel_ridge import KernelRidge
+
+        def factory(size):
+            return KernelPCovR(mixing=0.5, n_components=2 if size == "small" else 3, kernel="precomputed", center=center,
+                               regressor=KernelRidge(alpha=0.1, kernel="precomputed"))
+
+        def kern(d):
+            return np.exp(-0.1 * ((d["X"][:, None, :] - d["X"][None, :, :]) ** 2).sum(-1))
+
+        def fit(obj, d, wy, layout):
+            K, Y = lay(kern(d), layout), lay(d["Y2"], layout)
+            return (lambda: obj.fit(K, Y)), {"K": K, "Y": Y}
+        ops = [("transform", lambda obj, d, layout: ((lambda K=lay(kern(d), layout): (lambda: obj.transform(K), {"K": K}))())),
+               ("predict", lambda obj, d, layout: ((lambda K=lay(kern(d), layout): (lambda: obj.predict(K), {"K": K}))())),
+               ("score", lambda obj, d, layout: ((lambda K=lay(kern(d), layout), Y=lay(d["Y2"], layout): (lambda: obj.score(K, Y), {"K": K, "Y": Y}))()))]
+        return (factory, "required", fit, ops)
+    cat["KernelPCovR[precomputed]"] = kpre_entry(False)
+    cat["KernelPCovR[precomputed,center]"] = kpre_entry(True)
+
+    def pcovr_pre_entry():
+        def factory(size):
+            return PCovR(mixing=0.5, n_components=2 if size == "small" else 3, regressor="precomputed")
+
+        def fit(obj, d, wy, layout):
+            X = lay(d["X"], layout)
+            W0 = np.linalg.lstsq(d["X"], d["Y2"], rcond=None)[0]
+            Yh, W = lay(d["X"] @ W0, layout), lay(W0, layout)
+            if wy:
+                return (lambda: obj.fit(X, Yh, W)), {"X": X, "Yhat": Yh, "W": W}
+            return (lambda: obj.fit(X, Yh)), {"X": X, "Yhat": Yh}
+        ops = [("transform", lambda obj, d, layout: ((lambda X=lay(d["X"], layout): (lambda: obj.transform(X), {"X": X}))())),
+               ("predict", lambda obj, d, layout: ((lambda X=lay(d["X"], layout): (lambda: obj.predict(X), {"X": X}))()))]
+        return (factory, "optional", fit, ops)
+    cat["PCovR[precomputed]"] = pcovr_pre_entry()
+
+    def kde_entry():
+        from skmatter.neighbors import SparseKDE
+        base = make_data(np.random.default_rng(77), "A")
+
+        def factory(size):
+            return SparseKDE(base["X"][:, :2].copy(), base["w"].copy(), fpoints=0.3 if size == "small" else 0.5)
+
+        def fit(obj, d, wy, layout):
+            G = lay(np.ascontiguousarray(d["X"][::2, :2]), layout)
+            return (lambda: obj.fit(G)), {"G": G}
+        ops = [("score_samples", lambda obj, d, layout: ((lambda Q=lay(d["X"][1::3, :2] + 0.05, layout): (lambda: obj.score_samples(Q), {"Q": Q}))())),
+               ("score", lambda obj, d, layout: ((lambda Q=lay(d["X"][1::3, :2] + 0.05, layout): (lambda: obj.score(Q), {"Q": Q}))()))]
+        return (factory, "none", fit, ops)
+    cat["SparseKDE"] = kde_entry()
+
+    def qs_entry():
+        from skmatter.clustering import QuickShift
+
+        def factory(size):
+            return QuickShift(gabriel_shell=1 if size == "small" else 2)
+
+        def fit(obj, d, wy, layout):
+            X, w = lay(np.ascontiguousarray(d["X"][:, :2]), layout), lay(d["w"] + np.arange(len(d["w"])) * 0.01, layout)
+            return (lambda: obj.fit(X, samples_weight=w)), {"X": X, "w": w}
+        return (factory, "none", fit, [])
+    cat["QuickShift[gabriel]"] = qs_entry()
+
     def scaler_entry():
         def factory(size):
             return StandardFlexibleScaler(column_wise=(size == "large"))
@@ -307,14 +370,14 @@ def est_trace(tid, name, entry, hist, dataA, dataB, layout):
         _, raised = rec.call("fit", fn, args, obj=o, key=key(st["d"], wy, st["n"]), relation="refit" if i > 0 else "repeat")
         if raised:
             break
-        if i == len(hist) - 1:
-            for opn, op in ops:
-                fn2, a2 = op(o, data[st["d"]], layout)
-                rec.call(opn, fn2, a2, obj=o, key=key(st["d"], wy, st["n"], op=opn), relation="refit")
+        # follow-up calls after EVERY fit of the history (lazily cached state must not survive a refit)
+        for opn, op in ops:
+            fn2, a2 = op(o, data[st["d"]], layout)
+            rec.call(opn, fn2, a2, obj=o, key=key(st["d"], wy, st["n"], op=opn), relation="refit")
     # fit_transform = fit ; transform (where available)
     st = hist[-1]
     o2 = factory(st["n"])
-    if hasattr(o2, "fit_transform") and any(opn == "transform" for opn, _ in ops) and not name.startswith("sample."):
+    if hasattr(o2, "fit_transform") and any(opn == "transform" for opn, _ in ops) and not name.startswith("sample.") and "precomputed" not in name:
         d = data[st["d"]]
         wy = bool(st["y"]) or ymode == "required"
         try:
